@@ -75,6 +75,111 @@ def fresh_iterator_rules(ctx):
 
 
 
+ORDER_BREAKERS = r"Iterator>::(rev|skip|take|filter|filter_map|step_by|skip_while|take_while|chain|zip|cycle)\b|::(sort\w*|reverse|dedup\w*|retain|swap|swap_remove|rotate_\w+|insert|remove|truncate|pop)$"
+
+
+def mode_order_rules(ctx):
+    """C06.i: mode numbers are positions in the list the user configured: transitions, set_mode and 'mode 0' all speak
+    about the i-th mode handed to the builder.  The builder appends in call order, both ScannerImpl constructors
+    compile the modes in list order and store them in that order."""
+    F = ctx.facts
+    # builder: add_scanner_mode appends the given mode, add_scanner_modes appends the slice in order
+    for pat, call_rx, arg in ((r"scanner_builder::ScannerBuilder::add_scanner_mode$", r"Vec::<.*ScannerMode>::push$", "scanner_mode"),
+                              (r"scanner_builder::ScannerBuilder::add_scanner_modes$", r"Vec::<.*ScannerMode>::extend_from_slice$|Extend<.*>>::extend", "scanner_modes")):
+        fn = F.fn(pat)
+        ctx.analysed_fn(fn)
+        bad = [M.short_name(M.call_name(t)) for bb, t in fn.calls(ORDER_BREAKERS)]
+        ex, paths = run_fn(fn, F, Model())
+        rp = ret_paths(paths)
+        ok = bool(rp) and not bad
+        det = "reordering/filtering calls: %s" % bad if bad else ""
+        for p in rp:
+            c = p.calls(call_rx)
+            if not (len(c) == 1 and "self.scanner_modes" in S.fstr(ex.deref_val(p, c[0][3][0]) if c[0][3][0][0] == "ref" else c[0][3][0]) + S.fstr(c[0][3][0]).replace("_1.", "self.") and S.mentions(ex.deref_val(p, c[0][3][1]) if c[0][3][1][0] == "ref" else c[0][3][1], lambda x: x == ("sym", arg))):
+                ok = False
+                det = "appends %s" % [(M.short_name(x[2]), [S.fstr(a)[:60] for a in x[3]]) for x in p.calls(r"Vec::|extend")][:3]
+            r = p.end[1]
+            if not S.mentions(r, lambda x: x == ("sym", "self")):
+                ok = False
+                det = "returns %s" % S.fstr(r)[:80]
+        ctx.ob("C06.i", "builder-appends-in-call-order:" + M.short_name(fn.name), ok, det or "appends %s to self.scanner_modes and returns self" % arg, fn.loc())
+    # constructors: modes compiled and stored in list order
+    for pat in (r"ScannerImpl as std::convert::TryFrom<std::vec::Vec<scanner_mode::ScannerMode>>>::try_from$", r"ScannerImpl as std::convert::TryFrom<&\[scanner_mode::ScannerMode\]>>::try_from$"):
+        fn = F.fn(pat)
+        ctx.analysed_fn(fn)
+        tag = "Vec" if "Vec" in pat else "slice"
+        bad = [M.short_name(M.call_name(t)) for bb, t in fn.calls(ORDER_BREAKERS)]
+        ctx.ob("C06.i", "modes-compiled-in-list-order:%s" % tag, not bad, "reordering/filtering calls: %s" % bad, fn.loc())
+        ex, paths = run_fn(fn, F, Model(), max_paths=5000)
+        n_iter = 0
+        vec = None
+        for p in paths:
+            cm = p.calls(r"CompiledScannerMode::try_from_scanner_mode$")
+            pu = p.calls(r"Vec::<.*CompiledScannerMode>::push$")
+            if cm and pu:
+                n_iter += 1
+                item = S.fstr(cm[0][3][0])
+                ok = len(cm) == 1 and len(pu) == 1 and pu[0][3][1] == ("field", ("downcast", cm[0][4], "Ok"), "0") and "item@" in item
+                vec = pu[0][3][0]
+                ctx.ob("C06.i", "each-mode-compiled-once-and-appended:%s" % tag, ok, "push(%s) of try_from_scanner_mode(%s)" % (S.fstr(pu[0][3][1])[:60], item[:40]), fn.loc())
+            if p.end[0] == "return" and variant_of(ex, p, p.end[1]) == "Ok":
+                r = p.end[1]
+                inner = r[3][0] if r[0] == "adt" and r[3] else None
+                okr = inner is not None and inner[0] == "adt" and len(inner[3]) >= 2 and "with_capacity" in S.fstr(inner[3][1]) or (inner is not None and inner[0] == "adt" and re.search(r"Vec::(new|with_capacity)", S.fstr(inner[3][1])) is not None)
+                ctx.ob("C06.i", "compiled-modes-stored-as-built:%s" % tag, bool(okr), "ScannerImpl.scanner_modes := %s" % (S.fstr(inner[3][1])[:80] if inner is not None and inner[0] == "adt" else None), fn.loc())
+        ctx.floor("C06.i", "loop iterations compiling a mode (%s)" % tag, n_iter, 1)
+
+
+def compiled_mode_rules(ctx, rule="C06.h"):
+    """The compiled mode is the configured mode: same name, same transition table, automaton compiled from the whole,
+    unmodified pattern list (also a side condition of C02: no configured pattern is lost before compilation)."""
+    F = ctx.facts
+    # ---- C06.h the compiled mode keeps the configured transition table and name unchanged ---------
+    sm = F.fn(r"CompiledScannerMode::try_from_scanner_mode$")
+    ctx.analysed_fn(sm)
+    ex, paths = run_fn(sm, F, Model())
+    n = 0
+    for p in ret_paths(paths):
+        r = p.end[1]
+        if r[0] == "adt" and r[2] == "Ok" and r[3][0][0] == "adt":
+            n += 1
+            m = r[3][0]
+            names = ["name", "dfa", "transitions"]
+            tr = m[3][2] if len(m[3]) > 2 else None
+            nm = m[3][0] if m[3] else None
+            ctx.ob(rule, "compiled-mode-keeps-the-configured-transitions", tr == ("field", ("sym", "scanner_mode"), "transitions"),
+                   "CompiledScannerMode.transitions := %s (must be the ScannerMode's transition list, unmodified)" % (S.fstr(tr)[:140] if tr else None), sm.loc())
+            ctx.ob(rule, "compiled-mode-keeps-the-configured-name", nm == ("field", ("sym", "scanner_mode"), "name"), "name := %s" % (S.fstr(nm)[:80] if nm else None), sm.loc())
+            c = p.calls(r"CompiledDfa::try_from_patterns$")
+            ctx.ob(rule, "compiled-mode-automaton-from-own-patterns", len(c) == 1 and S.fstr(ex.deref_val(p, c[0][3][0])) == "scanner_mode.patterns", "dfa := try_from_patterns(%s)" % (S.fstr(c[0][3][0])[:60] if c else None), sm.loc())
+    ctx.floor(rule, "Ok paths of try_from_scanner_mode", n, 1)
+    # ScannerMode::new stores the given transitions in order (ids are transparent wrappers)
+    nw = F.fn(r"scanner_mode::ScannerMode::new$")
+    ctx.analysed_fn(nw)
+    calls = [M.call_name(t) for bb, t in nw.calls()]
+    bad = [c for c in calls if re.search(r"Iterator>::(rev|skip|take|filter|step_by|skip_while|take_while)|sort|dedup|reverse|retain", c) and "windows" not in c]
+    ctx.ob(rule, "ScannerMode::new-keeps-the-given-transitions", not bad, "reordering/filtering calls in ScannerMode::new: %s" % [M.short_name(c) for c in bad], nw.loc())
+    for c in F.closures_of(nw):
+        if c.argc == 2 and len(c.j["locals"]) > 2 and "(usize, usize)" in c.j["locals"][2]["ty"]:
+            ex2, ps = run_fn(c, F, Model(), inline=r"ids::(TerminalID|ScannerModeID)::new$")
+            for q in ret_paths(ps):
+                r = q.end[1]
+                ok = r[0] == "tuple" and S.fstr(r[1][0]).endswith(".0") and S.fstr(r[1][1]).endswith(".1")
+                ctx.ob(rule, "ScannerMode::new-maps-(token type, mode)-in-that-order", ok, "pair := %s" % S.fstr(r)[:80], c.loc())
+    # the automaton of the mode is built from the whole pattern list, unchanged
+    cp = F.fn(r"CompiledDfa::try_from_patterns$")
+    ctx.analysed_fn(cp)
+    ex, paths = run_fn(cp, F, Model(), max_paths=5000)
+    n = 0
+    for p in paths:
+        for mp in p.calls(r"MultiPatternNfa::try_from_patterns$"):
+            n += 1
+            a0 = mp[3][0]
+            v = ex.deref_val(p, a0) if a0[0] == "ref" else a0
+            ctx.ob(rule, "all-configured-patterns-reach-the-nfa", S.fstr(v).lstrip("&*") == "patterns" or v == ("sym", "patterns"), "MultiPatternNfa::try_from_patterns(%s)" % S.fstr(a0)[:60], cp.loc())
+    ctx.floor(rule, "MultiPatternNfa::try_from_patterns calls", n, 1)
+
+
 def check(ctx):
     F = ctx.facts
     ctx.trust("rustc type checker / MIR construction (nightly), the fact driver")
@@ -281,6 +386,7 @@ def check(ctx):
         ctx.ob("C06.d", "ScannerImpl::has_transition-forwards", ok, "forwards to %s" % (S.vstr(c[0][3][0]) if c else None), sh.loc())
 
     fresh_iterator_rules(ctx)
+    mode_order_rules(ctx)
 
     # ---- C06.f the attempt uses the automaton of the current mode ----------------------------------
     pf = F.fn(r"ScannerImpl::peek_from$")
@@ -324,6 +430,10 @@ def check(ctx):
         (r"<find_matches::FindMatches<'_> as scanner::ScannerModeSwitcher>::mode_name$", r"FindMatchesImpl::<..>::mode_name$", "self.inner", "index"),
         (r"FindMatchesImpl::<..>::mode_name$", r"ScannerImpl as scanner::ScannerModeSwitcher>::mode_name$", "self.scanner_impl", "index"),
         (r"<scanner::Scanner as scanner::ScannerModeSwitcher>::mode_name$", r"ScannerImpl as scanner::ScannerModeSwitcher>::mode_name$", "self.inner", "index"),
+        # the with_positions() adaptor hands mode operations to the iterator it wraps
+        (r"<with_positions::WithPositions<I> as scanner::ScannerModeSwitcher>::set_mode$", r"^<I as scanner::ScannerModeSwitcher>::set_mode$", "self.iter", "mode"),
+        (r"<with_positions::WithPositions<I> as scanner::ScannerModeSwitcher>::current_mode$", r"^<I as scanner::ScannerModeSwitcher>::current_mode$", "self.iter", None),
+        (r"<with_positions::WithPositions<I> as scanner::ScannerModeSwitcher>::mode_name$", r"^<I as scanner::ScannerModeSwitcher>::mode_name$", "self.iter", "index"),
     ]
     for src, dst, recv, arg in chains:
         fn = F.fn(src)
@@ -353,9 +463,9 @@ def check(ctx):
     mn = F.fn(r"ScannerImpl as scanner::ScannerModeSwitcher>::mode_name$")
     ex, paths = run_fn(mn, F, Model())
     for p in ret_paths(paths):
-        g = p.calls(r"<impl \[.*\]>::get|Vec::<.*>::get|slice::<impl \[")
-        s = S.vstr(p.end[1])
-        ok = "scanner_modes" in s and "index" in s
+        g = [c for c in p.calls(r"::get(::<.*>)?$") if len(c[3]) == 2]
+        s = S.fstr(p.end[1])
+        ok = "scanner_modes" in s and len(g) == 1 and g[0][3][1] == ("sym", "index") and "scanner_modes" in S.fstr(ex.deref_val(p, g[0][3][0]) if g[0][3][0][0] == "ref" else g[0][3][0])
         ctx.ob("C06.g", "mode_name-looks-up-index", ok, "returns %s" % s, mn.loc())
     # Scanner::set_mode only touches its own inner (C06.e: iterators own a clone)
     ss = F.fn(r"<scanner::Scanner as scanner::ScannerModeSwitcher>::set_mode$")
@@ -364,37 +474,6 @@ def check(ctx):
     ctx.ob("C06.g", "Scanner::set_mode-writes-own-inner-only", not [x for x in other if x[0].startswith("internal") or x[0].startswith("find_matches")],
            "other local fields written: %s" % other, ss.loc())
 
-    # ---- C06.h the compiled mode keeps the configured transition table and name unchanged ---------
-    sm = F.fn(r"CompiledScannerMode::try_from_scanner_mode$")
-    ctx.analysed_fn(sm)
-    ex, paths = run_fn(sm, F, Model())
-    n = 0
-    for p in ret_paths(paths):
-        r = p.end[1]
-        if r[0] == "adt" and r[2] == "Ok" and r[3][0][0] == "adt":
-            n += 1
-            m = r[3][0]
-            names = ["name", "dfa", "transitions"]
-            tr = m[3][2] if len(m[3]) > 2 else None
-            nm = m[3][0] if m[3] else None
-            ctx.ob("C06.h", "compiled-mode-keeps-the-configured-transitions", tr == ("field", ("sym", "scanner_mode"), "transitions"),
-                   "CompiledScannerMode.transitions := %s (must be the ScannerMode's transition list, unmodified)" % (S.fstr(tr)[:140] if tr else None), sm.loc())
-            ctx.ob("C06.h", "compiled-mode-keeps-the-configured-name", nm == ("field", ("sym", "scanner_mode"), "name"), "name := %s" % (S.fstr(nm)[:80] if nm else None), sm.loc())
-            c = p.calls(r"CompiledDfa::try_from_patterns$")
-            ctx.ob("C06.h", "compiled-mode-automaton-from-own-patterns", len(c) == 1 and S.fstr(ex.deref_val(p, c[0][3][0])) == "scanner_mode.patterns", "dfa := try_from_patterns(%s)" % (S.fstr(c[0][3][0])[:60] if c else None), sm.loc())
-    ctx.floor("C06.h", "Ok paths of try_from_scanner_mode", n, 1)
-    # ScannerMode::new stores the given transitions in order (ids are transparent wrappers)
-    nw = F.fn(r"scanner_mode::ScannerMode::new$")
-    ctx.analysed_fn(nw)
-    calls = [M.call_name(t) for bb, t in nw.calls()]
-    bad = [c for c in calls if re.search(r"Iterator>::(rev|skip|take|filter|step_by|skip_while|take_while)|sort|dedup|reverse|retain", c) and "windows" not in c]
-    ctx.ob("C06.h", "ScannerMode::new-keeps-the-given-transitions", not bad, "reordering/filtering calls in ScannerMode::new: %s" % [M.short_name(c) for c in bad], nw.loc())
-    for c in F.closures_of(nw):
-        if c.argc == 2 and len(c.j["locals"]) > 2 and "(usize, usize)" in c.j["locals"][2]["ty"]:
-            ex2, ps = run_fn(c, F, Model(), inline=r"ids::(TerminalID|ScannerModeID)::new$")
-            for q in ret_paths(ps):
-                r = q.end[1]
-                ok = r[0] == "tuple" and S.fstr(r[1][0]).endswith(".0") and S.fstr(r[1][1]).endswith(".1")
-                ctx.ob("C06.h", "ScannerMode::new-maps-(token type, mode)-in-that-order", ok, "pair := %s" % S.fstr(r)[:80], c.loc())
+    compiled_mode_rules(ctx, "C06.h")
     from .common import cache_foundation
     cache_foundation(ctx)
